@@ -143,6 +143,10 @@ def build_props(pid, live_deps=()):
     """Re-check Props/<pid>.v from scratch (its .vo is removed first) together with whatever it
     depends on.  Returns dict(ok, obligations, discharged, axioms, theorems, output, checker_cmd)."""
     ensure_makefile()
+    # the data snapshot of /repo (unit tables, atmosphere constants) belongs to the tree being checked: every check regenerates it, so that a
+    # snapshot left by an earlier run on a different tree never decides a later build
+    from harness import live
+    live.generate()
     src = os.path.join(COQ, "Props", pid + ".v")
     text = open(src).read()
     theorems = re.findall(r"^\s*(?:Theorem|Corollary)\s+([\w']+)", text, re.M)
